@@ -237,6 +237,9 @@ func (scanner *sortingScanner) ScanCursor(tx *bbolt.Tx, cursorProvider ast.SetCu
 	results := &llrb.Tree{}
 	isChildStore := scanner.store.IsChildStore()
 	maxResults := scanner.targetOffset + scanner.targetLimit
+	if maxResults < 0 { // overflow, happens when skipping rows with an unbounded limit
+		maxResults = math.MaxInt64
+	}
 	for cursor.IsValid() {
 		current := cursor.Current()
 		cursor.Next()
